@@ -97,6 +97,8 @@ def analyse(pid, ins, impl, model, pred):
         prev_state = "0"
         first_div = None
         first_viol = None
+        why_viol = None
+        expected, delivered = [], []   # C06 on data: payloads received / payloads handed to the reader, in order
         for k in range(1, len(lines)):
             i = start + k
             res["events"] += 1
@@ -119,6 +121,14 @@ def analyse(pid, ins, impl, model, pred):
             pi += 1
             if pv.startswith("viol") and pid in pv.split()[1].split(",") and first_viol is None:
                 first_viol = k
+            if pid == "C06" and first_viol is None:
+                md = re.search(r" dg=1 data=ok:([0-9a-f]*)", lines[k]) if ev == "msg" else None
+                if md:
+                    expected.append(md.group(1))
+                delivered += re.findall(r"(?:^| )P:([0-9a-f]*)", il.split(" | ")[0])
+                if delivered != expected[:len(delivered)]:
+                    first_viol = k
+                    why_viol = "payloads handed to the reader %s are not a prefix of the valid payloads received %s (lost, duplicated, altered or reordered)" % (delivered[-3:], expected[:len(delivered)][-3:])
             il_c = il.replace(" final=1", "")
             if il_c != ml and first_div is None:
                 if project(pid, il_c) != project(pid, ml):
@@ -126,7 +136,7 @@ def analyse(pid, ins, impl, model, pred):
                 else:
                     res["diverge_other"] += 1
         if first_viol is not None:
-            res["pred_viol"].append({"scenario": sidx, "event": first_viol, "header": lines[0], "events": lines[1:first_viol + 1],
+            res["pred_viol"].append({"scenario": sidx, "event": first_viol, "why": why_viol, "header": lines[0], "events": lines[1:first_viol + 1],
                                      "impl": impl[start + 1:start + first_viol + 1], "model": model[start + 1:start + first_viol + 1]})
         if first_div is not None:
             res["diverge"].append({"scenario": sidx, "event": first_div, "header": lines[0], "events": lines[1:first_div + 1],
@@ -210,13 +220,13 @@ def check(pid, tier, seed):
     if lean_ok and bad_ax:
         R.violation({"broken": "axiom audit", "theorems": bad_ax}, "axioms", no_input=True)
     hubcov = None
-    if pid == "C11":
+    if pid in ("C11", "C01"):
         from . import hubprop
-        hubcov = hubprop.hub_part(R, "C11", tier, seed)
+        hubcov = hubprop.hub_part(R, pid, tier, seed)
     R.coverage = {
         "obligations": len(obligations) + (hubcov["obligations"] if hubcov else 0),
         "discharged": discharged + (hubcov["discharged"] if hubcov else 0),
-        "hub_registry_part": hubcov,
+        "hub_part": hubcov,
         "checker_cmd": "cd /verif/lean && lake build ShipVerif  (certificate shards by `decide +kernel`); lake env lean Audit.lean (#print axioms)",
         "trusted_base": C.TRUSTED_BASE,
         "theorems": aud,
